@@ -157,19 +157,97 @@ inductive SRes (α : Type) where
   | nofuel
   deriving Inhabited
 
+/-! `schema(ctx)` is written over named combinators (sequencing of children, the property / index-signature loops, the
+"define a name once" protocol of `SchemaPrintingContext`, the variant loop of a discriminated union), so that statements
+about the printing context are proved once per combinator (Props/C16Order.lean). -/
+
+/-- children in order, left to right, threading the context; stops at the first exception -/
+def seqS (go : RT → SCtx → SRes JsVal) : List RT → SCtx → SRes (List JsVal)
+  | [], c => .ok [] c
+  | t :: ts, c =>
+    match go t c with
+    | .ok s c' =>
+      (match seqS go ts c' with
+        | .ok ss c'' => .ok (s :: ss) c''
+        | .throw e => .throw e
+        | .nofuel => .nofuel)
+    | .throw e => .throw e
+    | .nofuel => .nofuel
+
+def isOptionalRT : RT → Bool
+  | .optional _ => true
+  | _ => false
+
+/-- the property loop of `ObjectRuntype.schema`: raw schema of every property, null branch removed ⇒ optional -/
+def propsS (go : RT → SCtx → SRes JsVal) : List (String × RT) → List (String × JsVal) × List String → SCtx →
+    SRes (List (String × JsVal) × List String)
+  | [], acc, c => .ok acc c
+  | p :: rest, (ps, opt), c =>
+    match go p.2 c with
+    | .ok raw c' =>
+      (match removeNullUnionBranch 50 raw with
+        | some rw => propsS go rest (setProp ps p.1 rw, opt ++ [p.1]) c'
+        | none => propsS go rest (setProp ps p.1 raw, if isOptionalRT p.2 then opt ++ [p.1] else opt) c')
+    | .throw e => .throw e
+    | .nofuel => .nofuel
+
+/-- the index-signature loop: key schema, then value schema -/
+def indexS (go : RT → SCtx → SRes JsVal) : List (RT × RT) → SCtx → SRes (List JsVal)
+  | [], c => .ok [] c
+  | p :: rest, c =>
+    match go p.1 c with
+    | .ok ks c' =>
+      (match go p.2 c' with
+        | .ok vs c'' =>
+          (match indexS go rest c'' with
+            | .ok ss c3 =>
+              .ok (jobj [("type", .str "object"), ("additionalProperties", vs), ("propertyNames", ks)] :: ss) c3
+            | .throw e => .throw e
+            | .nofuel => .nofuel)
+        | .throw e => .throw e
+        | .nofuel => .nofuel)
+    | .throw e => .throw e
+    | .nofuel => .nofuel
+
+/-- `SchemaPrintingContext`: print the body of `name` and store it, unless it is stored or being printed -/
+def defineS (go : RT → SCtx → SRes JsVal) (name : String) (target : RT) (c : SCtx) : SRes Unit :=
+  if c.has name || c.inProgress.contains name then .ok () c
+  else
+    match go target { c with inProgress := c.inProgress ++ [name] } with
+    | .ok body c2 => .ok () (c2.store name body)
+    | .throw e => .throw e
+    | .nofuel => .nofuel
+
+/-- the name and the schema source of one variant of a discriminated union -/
+def variantTarget (env : Env) (o : SOpts) (key : String) (unionHash : Int) (schemaMapping : List (String × RT))
+    (kv : String × RT) : String × Option RT :=
+  let ambiguous := decide ((schemaMapping.filter fun kv' => sanitizePart kv'.1 == sanitizePart kv.1).length > 1)
+  match stripDesc kv.2 with
+  | .ref r => (r, match o.overrides.find? (fun p => p.1 == r) with | some p => some p.2 | none => env.lookup r)
+  | _ => (syntheticRefName key kv.1 unionHash ambiguous, some kv.2)
+
+/-- `getSchemaVariantRefs`: a definition for every variant, in `Object.entries(schemaMapping)` order -/
+def variantsS (go : RT → SCtx → SRes JsVal) (tgt : String × RT → String × Option RT) (template : String) :
+    List (String × RT) → SCtx → SRes (List (String × String))
+  | [], c => .ok [] c
+  | kv :: rest, c =>
+    match tgt kv with
+    | (_, none) => .throw c
+    | (name, some target) =>
+      match defineS go name target c with
+      | .ok _ c' =>
+        (match variantsS go tgt template rest c' with
+          | .ok refs c'' => .ok ((kv.1, getRef template name) :: refs) c''
+          | .throw e => .throw e
+          | .nofuel => .nofuel)
+      | .throw e => .throw e
+      | .nofuel => .nofuel
+
 /-- `schema(ctx)` -/
 def schema (env : Env) (o : SOpts) : Nat → RT → Option String → List String → SCtx → SRes JsVal
   | 0, _, _, _, _ => .nofuel
   | n+1, rt, desc, seen, c =>
     let go (t : RT) (c : SCtx) := schema env o n t none seen c
-    let goList (ts : List RT) (c : SCtx) : SRes (List JsVal) :=
-      ts.foldl (fun (acc : SRes (List JsVal)) t =>
-        match acc with
-        | .ok ss c => (match go t c with
-          | .ok s c' => .ok (ss ++ [s]) c'
-          | .throw e => .throw e
-          | .nofuel => .nofuel)
-        | r => r) (.ok [] c)
     let ret (s : JsVal) (c : SCtx) : SRes JsVal := .ok (annotate desc s) c
     match rt with
     | .described d t => schema env o n t (some d) seen c
@@ -195,7 +273,7 @@ def schema (env : Env) (o : SOpts) : Nat → RT → Option String → List Strin
       | some tp => ret (jobj [("type", .str tp), ("enum", .arr vs)]) c
       | none => ret (jobj [("enum", .arr vs)]) c
     | .tuple pre rest =>
-      match goList pre c with
+      match seqS go pre c with
       | .ok ps c1 =>
         let itemsR : SRes JsVal := match rest with
           | some r => go r c1
@@ -208,7 +286,7 @@ def schema (env : Env) (o : SOpts) : Nat → RT → Option String → List Strin
       | .throw e => .throw e
       | .nofuel => .nofuel
     | .allOf ts =>
-      match goList ts c with
+      match seqS go ts c with
       | .ok ss c1 =>
         match tryMergeAllOf ss with
         | some merged => ret merged c1
@@ -216,7 +294,7 @@ def schema (env : Env) (o : SOpts) : Nat → RT → Option String → List Strin
       | .throw e => .throw e
       | .nofuel => .nofuel
     | .anyOf ts =>
-      match goList ts c with
+      match seqS go ts c with
       | .ok ss c1 => ret (jobj [("anyOf", .arr ss)]) c1
       | .throw e => .throw e
       | .nofuel => .nofuel
@@ -233,26 +311,7 @@ def schema (env : Env) (o : SOpts) : Nat → RT → Option String → List Strin
         match hash env 200 rt [] with
         | none => .throw c
         | some unionHash =>
-          -- getSchemaVariantRefs: ensure a definition for every variant, in `Object.entries(schemaMapping)` order
-          let step (acc : SRes (List (String × String))) (kv : String × RT) : SRes (List (String × String)) :=
-            match acc with
-            | .ok refs c =>
-              let ambiguous := decide ((schemaMapping.filter fun kv' => sanitizePart kv'.1 == sanitizePart kv.1).length > 1)
-              let (name, target) : String × Option RT := match stripDesc kv.2 with
-                | .ref r => (r, match o.overrides.find? (fun p => p.1 == r) with | some p => some p.2 | none => env.lookup r)
-                | _ => (syntheticRefName key kv.1 unionHash ambiguous, some kv.2)
-              (match target with
-                | none => .throw c
-                | some target =>
-                  if c.has name || c.inProgress.contains name then .ok (refs ++ [(kv.1, getRef o.refTemplate name)]) c
-                  else
-                    let c1 := { c with inProgress := c.inProgress ++ [name] }
-                    match go target c1 with
-                    | .ok body c2 => .ok (refs ++ [(kv.1, getRef o.refTemplate name)]) (c2.store name body)
-                    | .throw e => .throw e
-                    | .nofuel => .nofuel)
-            | r => r
-          match schemaMapping.foldl step (.ok [] c) with
+          match variantsS go (variantTarget env o key unionHash schemaMapping) o.refTemplate schemaMapping c with
           | .ok refs c1 =>
             ret (jobj [("type", .str "object"),
               ("discriminator", jobj [("propertyName", .str key), ("mapping", jobj (refs.map fun r => (r.1, JsVal.str r.2)))]),
@@ -260,41 +319,18 @@ def schema (env : Env) (o : SOpts) : Nat → RT → Option String → List Strin
           | .throw e => .throw e
           | .nofuel => .nofuel
       else
-        match goList schemas c with
+        match seqS go schemas c with
         | .ok ss c1 =>
           ret (jobj [("type", .str "object"), ("discriminator", jobj [("propertyName", .str key)]), ("anyOf", .arr ss)]) c1
         | .throw e => .throw e
         | .nofuel => .nofuel
     | .object props ix =>
-      -- properties (raw schema, null branch removed => optional)
-      let stepP (acc : SRes (List (String × JsVal) × List String)) (p : String × RT) :=
-        match acc with
-        | .ok (ps, opt) c =>
-          (match go p.2 c with
-            | .ok raw c' =>
-              (match removeNullUnionBranch 50 raw with
-                | some rw => .ok (setProp ps p.1 rw, opt ++ [p.1]) c'
-                | none => .ok (setProp ps p.1 raw, if (match p.2 with | .optional _ => true | _ => false) then opt ++ [p.1] else opt) c')
-            | .throw e => .throw e
-            | .nofuel => .nofuel)
-        | r => r
-      match props.foldl stepP (.ok ([], []) c) with
+      match propsS go props ([], []) c with
       | .ok (ps, optionalized) c1 =>
         let required := (props.map (·.1)).filter (fun k => !optionalized.contains k)
         let base : List (String × JsVal) := [("type", .str "object"), ("properties", .obj ps)] ++
           (if required.length > 0 then [("required", JsVal.arr (required.map JsVal.str))] else [])
-        let stepI (acc : SRes (List JsVal)) (p : RT × RT) :=
-          match acc with
-          | .ok ss c =>
-            (match go p.1 c with
-              | .ok ks c' => (match go p.2 c' with
-                | .ok vs c'' => .ok (ss ++ [jobj [("type", .str "object"), ("additionalProperties", vs), ("propertyNames", ks)]]) c''
-                | .throw e => .throw e
-                | .nofuel => .nofuel)
-              | .throw e => .throw e
-              | .nofuel => .nofuel)
-          | r => r
-        match ix.foldl stepI (.ok [] c1) with
+        match indexS go ix c1 with
         | .ok indexSchemas c2 =>
           if indexSchemas.length == 0 then ret (jobj (base ++ [("additionalProperties", .bool false)])) c2
           else if ps.length == 0 && indexSchemas.length == 1 then
@@ -312,13 +348,11 @@ def schema (env : Env) (o : SOpts) : Nat → RT → Option String → List Strin
       | none => .throw c
       | some to =>
         if o.contextual then
-          if !c.has name && !c.inProgress.contains name then
-            let c1 := { c with inProgress := c.inProgress ++ [name] }
-            let target := (match o.overrides.find? (fun p => p.1 == name) with | some p => p.2 | none => to)
-            match go target c1 with
-            | .ok body c2 => ret (jobj [("$ref", .str (getRef o.refTemplate name))]) (c2.store name body)
-            | r => r
-          else ret (jobj [("$ref", .str (getRef o.refTemplate name))]) c
+          let target := (match o.overrides.find? (fun p => p.1 == name) with | some p => p.2 | none => to)
+          match defineS go name target c with
+          | .ok _ c1 => ret (jobj [("$ref", .str (getRef o.refTemplate name))]) c1
+          | .throw e => .throw e
+          | .nofuel => .nofuel
         else if seen.contains name then ret (jobj []) c
         else
           match schema env o n to none (name :: seen) c with
